@@ -136,6 +136,9 @@ func rootState(l *lexer) stateFn {
 				case '(':
 					l.emitType(TokenStringTemplate)
 					l.openBrackets++
+				default:
+					l.backupOne()
+					return l.error(fmt.Errorf("unrecognized character: %#U", '\\'))
 				}
 			} else {
 				return l.error(fmt.Errorf("unrecognized character: %#U", r))
